@@ -17,6 +17,10 @@ TECH = {
  "C21": "guard dominance + decision-table extraction + key-shape agreement",
  "C22": "must-pass-through, value-flow identity, who-may-call/who-may-write",
  "C33": "storage key-shape summaries + must-pass-through",
+ "C16": "call-graph reachability of forbidden effects + map-range effect classification",
+ "C19": "sibling template: key-shape pairing + guard dominance + unconditional-write chains",
+ "C32": "value flow + quasi-linear normal form + loop-iteration guard dominance + call-site constants",
+ "C36": "guard dominance with flag-phi feasibility + key-shape agreement + who-may-call",
 }
 
 def main():
